@@ -127,7 +127,18 @@ def unit_stft_fresh(prop):
     return unit
 
 
+def unit_torch_stft(prop):
+    def unit(tier, known):
+        from contracts import torch_stft as C
+        return run_contract(prop, C.TARGET, C.contract(), [(m, C.setup(m)) for m in ("causal", "centered", "kaldi")], name="torch_stft",
+                            to_case=getattr(C, "to_case", None), replay_module="rtc.c14")
+    unit.__name__ = "torch_stft"
+    return unit
+
+
 UNITS = {
+    "C14": [unit_torch_stft("C14")],
+    "C09": [unit_torch_stft("C09")],
     "C19": [_scales("C19")],
     "C02": [unit_stft_frame("C02"), unit_stft("C02", "full")],
     "C01": [unit_stft("C01", "finalize"), unit_stft("C01", "chunk"), unit_fbf("C01")],
